@@ -3,7 +3,9 @@ import vlib
 # Known finding class: a negation whose operand is itself a negation (only reachable through parentheses,
 # e.g. "!(!has(a))") prints as "!!..." which the parser collapses on re-parse.
 def classify(case_line):
-    if "not-under-not" in case_line.get("tags", []):
+    # the driver sets the tag only when the failing case has exactly the shape of the finding: still accepted by
+    # Parse and Validate, same evaluations, UID = hash of text, re-parsed text = text with its "!" runs collapsed
+    if "not-under-not:known-shape" in case_line.get("tags", []):
         return "not-under-not"
     return None
 
@@ -16,7 +18,7 @@ CFG = dict(
     rule="45 fixed boundary expressions, then grammar-directed selector expressions (all operators incl. both spellings of "
          "'not in'/'starts with'/'ends with', nesting <= 6, both quote styles, blank/tab noise, trailing commas, empty and duplicate "
          "set elements, labels named like keywords, non-ASCII bytes, 512/513-byte labels), 25% of them mutated by 1-3 byte edits "
-         "(malformed stream); 8 label maps per case drawn from the labels/values the expression mentions; non-trivial = accepted, "
+         "(malformed stream) and ~9% random token soup; 8 label maps per case drawn from the labels/values the expression mentions; non-trivial = accepted, "
          "canonical text differs from the input and the 8 evaluations are not all equal; distinct by input text",
     trusted=["Coq 8.16.1 kernel + vm_compute",
              "hand-written model coq/theories/C06/Model.v + Common/Labels.v tied to libcalico-go/lib/selector/{tokenizer,parser} by this correspondence run",
